@@ -21,6 +21,22 @@ PROPS = {
         "assumptions": ["the judged bound is for leading saves (the theorem C08_reserve_kept covers saves anywhere, through the cache <= ledger invariant)"],
         "trusted_base": [INTERP_MODELLED],
     },
+    "C09": {
+        "rule": SCRIPTS_RULE + "profile: 2-5 statements, literal saves, no balance()/overdraft() origins; for every script EVERY split point k: whole run, run of S1..Sk, run of Sk+1..Sn on the balances updated by the first part's postings (statement by statement, from prefix executions of the implementation) and save reservations (Spec/Ledger.save_visible). Non-trivial: the whole run succeeds with postings; distinct by hash of (script, k).",
+        "assumptions": ["variables do not read balances (quantifier of the property)", "saves in generated scripts are literal so that the harness can compute the reservation with the specification's save_visible"],
+        "trusted_base": [INTERP_MODELLED],
+    },
+    "C10": {
+        "rule": SCRIPTS_RULE + "profile: every second new variable has a meta()/balance()/overdraft() origin; each script is executed against the four store behaviours {static (bundled StaticStore), exact, sparse (omits absent and zero), superset (whole content)} with all calls logged. Non-trivial: at least one store call is made; distinct by hash.",
+        "assumptions": ["the four store behaviours of harness/interp.go and coq/Corr/Observe.v (answer_balances) are the 'faithful' stores of the property"],
+        "trusted_base": [INTERP_MODELLED, "the refinement 'run against a faithful store = run from the balance sheet' is decided by the correspondence (proof in progress: Proofs/CoverageProofs.v)"],
+    },
+    "C11": {
+        "rule": SCRIPTS_RULE + "each script: run twice against the bundled StaticStore built on the caller's own maps, deep comparison of variables/balances/metadata before and after, flag on/off, and 16 goroutines x 3 runs sharing one ParseResult and one store (thorough tier: race-detector build, each case's concurrent part in a child process with GORACE exitcode). Non-trivial: success with postings; distinct by hash.",
+        "assumptions": ["PARTIAL: aliasing, data races and schedules are explored, not proved (they are not expressible in the model)"],
+        "trusted_base": [INTERP_MODELLED, "Go race detector (thorough tier)"],
+        "race": True,
+    },
     "C12": {
         "rule": SCRIPTS_RULE + "profile: 6% ill-typed expression positions, 12% garbage variable texts, hostile accounts, 10% bad allotments; FAULT ENUMERATION: for every generated script, one extra execution per store call it makes with an error injected at that call. Every case is non-trivial; distinct by hash.",
         "assumptions": ["'complete AST' (theorem hypothesis) is what an error-free parse yields: counted on every dumped AST by the correspondence (a nil node makes the model predict the panic)",
